@@ -98,6 +98,8 @@ func mkView(view string, b []byte) reflect.Value {
 	return v
 }
 
+func SpanOf(base []byte, s []byte) string { return spanOf(base, s) }
+
 func spanOf(base []byte, s []byte) string {
 	if s == nil {
 		return "nil"
